@@ -10,6 +10,8 @@ import (
 	"fmt"
 	"math/big"
 	"math/rand"
+	"runtime"
+	"time"
 
 	"vharness/common"
 	"vharness/issuer"
@@ -311,5 +313,56 @@ func Run(cfg *common.Config) (*common.Report, error) {
 			}
 		}
 	}
+	if cfg.Thorough() {
+		if err := weakProbes(cfg, d); err != nil {
+			return nil, err
+		}
+	}
 	return rep, d.Flush()
+}
+
+// weakProbes (thorough only, time-boxed): grind one sibling until the root recomputed for the
+// ATTACKER's auth claim (in nobody's tree) partially agrees with the honest claims tree root,
+// everything else consistent with the attacker's key: the bundle must be rejected.
+func weakProbes(cfg *common.Config, d *issuer.Driver) error {
+	scs, err := issuer.ProbeTargets(cfg.Rng, 48)
+	if err != nil {
+		return err
+	}
+	sc0 := scs[0]
+	att := sc0.Attacker
+	ahi, ahv, err := att.Auth.HiHv()
+	if err != nil {
+		return err
+	}
+	attSig, _ := att.Sign(sc0.Claim)
+	attAuthHex, _ := att.Auth.Hex()
+	var targets []*big.Int
+	for _, sc := range scs {
+		targets = append(targets, sc.Snap.CTR)
+	}
+	t0 := time.Now()
+	res := issuer.WeakProbe(ahi, ahv, targets, new(big.Int).SetInt64(cfg.Rng.Int63n(1<<40)), 100*time.Second)
+	d.Rep.Notes = append(d.Rep.Notes, fmt.Sprintf("weak comparison probes (attacker auth claim, forged one-sibling existence proof, %d honest issuer states as targets): %d candidate siblings hashed in %.0f s on %d cores; partial agreements found: %s",
+		len(targets), res.Tried, time.Since(t0).Seconds(), runtime.NumCPU(), res.FoundString()))
+	d.Rep.Distribution["weak-probe-candidates"] = int(res.Tried)
+	for _, kind := range []string{"prefix8", "suffix8", "low32"} {
+		h, ok := res.Found[kind]
+		if !ok {
+			continue
+		}
+		sc := scs[h.Target]
+		p, e := sc.BJJ.Clone(), sc.Env.Clone()
+		p.CoreClaim = sc0.BJJ.CoreClaim
+		p.Signature, p.IssuerData.AuthCoreClaim = issuer.S(attSig), issuer.S(attAuthHex)
+		p.IssuerData.MTP = &issuer.MTPJ{Existence: true, Siblings: []string{h.Sibling.String()}}
+		p.IssuerData.CredentialStatus = issuer.StatusEntry("https://status.example/x", att.AuthNonce)
+		if a, err := sc.Issuer.RevocationAnswer(att.AuthNonce, false); err == nil {
+			e.Reg = []issuer.RegEntry{{Type: issuer.StatusType, Answer: a}}
+		}
+		if _, _, err := d.Do(sc0.CaseOf("bjj", "weak-compare-"+kind, "reject", p, e)); err != nil {
+			return err
+		}
+	}
+	return nil
 }
